@@ -156,6 +156,7 @@ def main(argv=None) -> int:
     refusal_stages: dict = {}
     vclasses: dict = {}
     crash_samples: list = []
+    odd_refusals: list = []
     faultfree = {"runs": 0, "violations": 0}
     faulty = {"runs": 0, "violations": 0}
     tasks = []
@@ -185,6 +186,9 @@ def main(argv=None) -> int:
         if st == "refused":
             rs = (r.get("refusal") or {}).get("stage", "?")
             refusal_stages[rs] = refusal_stages.get(rs, 0) + 1
+            if rs not in ("layout_planning", "crash") and len(odd_refusals) < 3:
+                odd_refusals.append({"stage": rs, "error": (r["refusal"].get("error") or "")[:300],
+                                     "source": r.get("source")})
             if (r.get("refusal") or {}).get("crash"):
                 stats["crash_refusals"] += 1
                 if len(crash_samples) < 3:
@@ -299,6 +303,7 @@ def main(argv=None) -> int:
             "refusal_stages": refusal_stages,
             "compiler_crash_refusals": stats["crash_refusals"],
             "compiler_crash_samples": crash_samples,
+            "front_end_refusal_samples": odd_refusals,
             "compiles": stats["compiles"],
             "simulated_ticks": stats["ticks"],
             "observations_compared": stats["compared"],
@@ -339,6 +344,8 @@ def main(argv=None) -> int:
         print("refusals:", json.dumps(refusal_stages, sort_keys=True))
     for c in crash_samples:
         print("compiler crash (counted as refusal):", c["error"])
+    for c in odd_refusals:
+        print("front-end refusal of a generated program:", c["stage"], c["error"][:200])
 
     if reported or regressions:
         return 1
